@@ -471,6 +471,221 @@ fn c14e_mcnk_layers_emitters() {
     std::mem::forget((c, d));
 }
 
+/// MCRF object references: survive when the header counts describe the list
+fn mcnk_with_refs(n_doodad: u32, n_wmo: u32) -> McnkChunk {
+    let mut c = empty_mcnk(header_any());
+    c.header.n_doodad_refs = n_doodad;
+    c.header.n_map_obj_refs = n_wmo;
+    let mut references = Vec::new();
+    references.push(kani::any());
+    references.push(kani::any());
+    c.refs = Some(McrfChunk { references });
+    c
+}
+
+#[kani::proof]
+#[kani::stub(std::fmt::format, vio::fmt_stub)]
+#[kani::stub(std::any::TypeId::eq, typeid_ne)]
+#[kani::unwind(12)]
+fn c14e_mcnk_refs() {
+    let nd: u32 = kani::any();
+    kani::assume(nd <= 2);
+    // documented contract of MCRF (McrfChunk::validate_counts): the two header counts add up to the list length
+    let c = mcnk_with_refs(nd, 2 - nd);
+    let out = write_at::<192>(&c);
+    kani::cover!(out.len == AT + 144 + 16);
+    subchunks_tile(&out, 1);
+    let d = ok!(parse_at(&out), "MCNK written by the serializer is rejected by the parser");
+    assert!(header_content_eq(&d.header, &c.header), "MCNK header content changed in write->parse");
+    assert!(is_magic(&out.buf, AT + d.header.ofs_refs as usize, ChunkId::MCRF), "ofs_refs does not point at an MCRF chunk");
+    assert!(d.refs.is_some(), "MCRF written but not found by the parser");
+    let dr = d.refs.as_ref().unwrap();
+    let cr = c.refs.as_ref().unwrap();
+    assert!(dr.references.len() == 2 && dr.references[0] == cr.references[0] && dr.references[1] == cr.references[1], "MCRF references changed in write->parse");
+    // known finding mcrf-phantom: the parser also returns the same bytes as MCRD and MCRW (doodad_refs / wmo_refs),
+    // so `d.doodad_refs.is_none() && d.wmo_refs.is_none()` and size-stability of parse->write are not asserted here
+    // (see c14e_mcnk_refs_rewrite_grows_witness)
+    std::mem::forget((c, d));
+}
+
+/// witness KF-C14-mcrf-phantom: one MCRF with 2 references, parsed and written again, is 32 bytes longer
+#[kani::proof]
+#[kani::stub(std::fmt::format, vio::fmt_stub)]
+#[kani::stub(std::any::TypeId::eq, typeid_ne)]
+#[kani::unwind(12)]
+fn c14e_mcnk_refs_rewrite_grows_witness() {
+    let mut c = empty_mcnk(header_zero());
+    c.header.n_doodad_refs = 2;
+    let mut references = Vec::new();
+    references.push(1u32);
+    references.push(2u32);
+    c.refs = Some(McrfChunk { references });
+    let mut out = FSink::<256>::new();
+    ok!(write_mcnk_chunk(&mut out, &c), "write fails");
+    let mut src = Src::<256>::new(out.buf, out.len);
+    src.pos = 8;
+    let d = ok!(McnkChunk::parse_with_offset_and_size(&mut src, 0, le32(&out.buf, 4)), "parse fails");
+    let mut out2 = FSink::<256>::new();
+    ok!(write_mcnk_chunk(&mut out2, &d), "rewrite fails");
+    assert!(out2.len == out.len, "MCNK with MCRF grows when it is parsed and serialised again");
+    std::mem::forget((c, d));
+}
+
+/// witness KF-C14-mcrf-counts: the writer does not derive the MCRF counts from the list, the parser needs them
+#[kani::proof]
+#[kani::stub(std::fmt::format, vio::fmt_stub)]
+#[kani::stub(std::any::TypeId::eq, typeid_ne)]
+#[kani::unwind(12)]
+fn c14e_mcnk_refs_zero_counts_witness() {
+    let mut c = empty_mcnk(header_zero());
+    let mut references = Vec::new();
+    references.push(1u32);
+    references.push(2u32);
+    c.refs = Some(McrfChunk { references });
+    let mut out = FSink::<192>::new();
+    ok!(write_mcnk_chunk(&mut out, &c), "write fails");
+    let mut src = Src::<192>::new(out.buf, out.len);
+    src.pos = 8;
+    let d = ok!(McnkChunk::parse_with_offset_and_size(&mut src, 0, le32(&out.buf, 4)), "parse fails");
+    assert!(d.refs.is_some(), "MCRF written by the serializer is not returned by the parser (header ref counts left at 0)");
+    std::mem::forget((c, d));
+}
+
+fn header_zero() -> McnkHeader {
+    McnkHeader { flags: McnkFlags { value: 0 }, index_x: 0, index_y: 0, n_layers: 0, n_doodad_refs: 0, multipurpose_field: [0; 8],
+        ofs_layer: 0, ofs_refs: 0, ofs_alpha: 0, size_alpha: 0, ofs_shadow: 0, size_shadow: 0, area_id: 0, n_map_obj_refs: 0,
+        holes_low_res: 0, unknown_but_used: 0, pred_tex: [0; 8], no_effect_doodad: [0; 8], unknown_8bytes: [0; 8], ofs_snd_emitters: 0,
+        n_snd_emitters: 0, ofs_liquid: 0, size_liquid: 0, position: [0.0; 3], ofs_mccv: 0, ofs_mclv: 0, unused: 0, _padding: [0; 8] }
+}
+
+/// witness KF-C14-mcnk-tail-dropped: MCDD (like MCMT, MCBB) is written by the serializer but never read back
+#[kani::proof]
+#[kani::stub(std::fmt::format, vio::fmt_stub)]
+#[kani::stub(std::any::TypeId::eq, typeid_ne)]
+#[kani::unwind(66)]
+fn c14e_mcnk_mcdd_dropped_witness() {
+    let mut c = empty_mcnk(header_zero());
+    c.doodad_disable = Some(crate::chunks::mcnk::McddChunk { disable: [0xFF; 64] });
+    let mut out = FSink::<256>::new();
+    ok!(write_mcnk_chunk(&mut out, &c), "write fails");
+    assert!(out.len == 8 + 136 + 8 + 64);
+    let mut src = Src::<256>::new(out.buf, out.len);
+    src.pos = 8;
+    let d = ok!(McnkChunk::parse_with_offset_and_size(&mut src, 0, le32(&out.buf, 4)), "parse fails");
+    assert!(d.doodad_disable.is_some(), "MCDD sub-chunk written by the serializer is lost by the parser");
+    std::mem::forget((c, d));
+}
+
+// ------------------------------------------------------------------ 145-vertex sub-chunks (MCVT, MCNR, MCCV, MCLV)
+fn heights_any() -> McvtChunk {
+    let mut heights = Vec::with_capacity(145);
+    let mut i = 0;
+    while i < 145 {
+        heights.push(kani::any::<f32>());
+        i += 1;
+    }
+    McvtChunk { heights }
+}
+fn normals_any() -> McnrChunk {
+    let mut normals = Vec::with_capacity(145);
+    let mut i = 0;
+    while i < 145 {
+        normals.push(VertexNormal { x: kani::any(), z: kani::any(), y: kani::any() });
+        i += 1;
+    }
+    let mut padding = Vec::with_capacity(13);
+    let mut j = 0;
+    while j < 13 {
+        padding.push(0u8);
+        j += 1;
+    }
+    McnrChunk { normals, padding }
+}
+fn colors_any() -> MccvChunk {
+    let mut colors = Vec::with_capacity(145);
+    let mut i = 0;
+    while i < 145 {
+        colors.push(VertexColor { b: kani::any(), g: kani::any(), r: kani::any(), a: kani::any() });
+        i += 1;
+    }
+    MccvChunk { colors }
+}
+
+/// heights + normals: the two offsets packed into the multipurpose field point at MCVT / MCNR, every vertex survives
+#[kani::proof]
+#[kani::stub(std::fmt::format, vio::fmt_stub)]
+#[kani::stub(std::any::TypeId::eq, typeid_ne)]
+#[kani::unwind(147)]
+fn c14e_mcnk_heights_normals() {
+    let mut c = empty_mcnk(header_any());
+    // flag 0x200 re-purposes the multipurpose field as a hole bitmap (MoP 5.3+); the builder's writer always stores offsets
+    c.header.flags.value &= !0x200;
+    c.heights = Some(heights_any());
+    c.normals = Some(normals_any());
+    let out = write_at::<1280>(&c);
+    kani::cover!(out.len == AT + 144 + 588 + 456);
+    assert!(out.len == AT + 144 + (8 + 145 * 4) + (8 + 145 * 3 + 13), "MCVT/MCNR sizes are not 145 floats / 145 x 3 bytes + 13 padding");
+    subchunks_tile(&out, 2);
+    let d = ok!(parse_at(&out), "MCNK written by the serializer is rejected by the parser");
+    assert!(header_content_eq(&d.header, &c.header), "MCNK header content changed in write->parse");
+    assert!(is_magic(&out.buf, AT + d.header.ofs_height() as usize, ChunkId::MCVT), "height offset does not point at an MCVT chunk");
+    assert!(is_magic(&out.buf, AT + d.header.ofs_normal() as usize, ChunkId::MCNR), "normal offset does not point at an MCNR chunk");
+    assert!(d.heights.is_some() && d.normals.is_some(), "MCVT/MCNR written but not found by the parser");
+    let dh = d.heights.as_ref().unwrap();
+    let dn = d.normals.as_ref().unwrap();
+    assert!(dh.heights.len() == 145 && dn.normals.len() == 145, "vertex count changed");
+    let i: usize = kani::any();
+    kani::assume(i < 145);
+    assert!(dh.heights[i].to_bits() == c.heights.as_ref().unwrap().heights[i].to_bits(), "height changed or moved in write->parse");
+    let (a, b) = (dn.normals[i], c.normals.as_ref().unwrap().normals[i]);
+    assert!(a.x == b.x && a.y == b.y && a.z == b.z, "normal changed or its components were swapped in write->parse");
+    assert!(dn.padding.len() == 13, "MCNR padding is not 13 bytes after parse");
+    std::mem::forget((c, d));
+}
+
+/// vertex colours: survive when MCNK flag 0x40 (has_mccv) is set
+#[kani::proof]
+#[kani::stub(std::fmt::format, vio::fmt_stub)]
+#[kani::stub(std::any::TypeId::eq, typeid_ne)]
+#[kani::unwind(147)]
+fn c14e_mcnk_vertex_colors() {
+    let mut c = empty_mcnk(header_any());
+    // known finding mccv-flag: the writer stores MCCV and its offset but leaves flag 0x40 to the caller, the parser
+    // ignores the offset unless the flag is set (see c14e_mcnk_vertex_colors_flag_witness)
+    c.header.flags.value |= 0x40;
+    c.vertex_colors = Some(colors_any());
+    let out = write_at::<768>(&c);
+    kani::cover!(out.len == AT + 144 + 8 + 580);
+    subchunks_tile(&out, 1);
+    let d = ok!(parse_at(&out), "MCNK written by the serializer is rejected by the parser");
+    assert!(header_content_eq(&d.header, &c.header), "MCNK header content changed in write->parse");
+    assert!(is_magic(&out.buf, AT + d.header.ofs_mccv as usize, ChunkId::MCCV), "ofs_mccv does not point at an MCCV chunk");
+    assert!(d.vertex_colors.is_some(), "MCCV written but not found by the parser");
+    let dc = d.vertex_colors.as_ref().unwrap();
+    assert!(dc.colors.len() == 145);
+    let i: usize = kani::any();
+    kani::assume(i < 145);
+    assert!(dc.colors[i] == c.vertex_colors.as_ref().unwrap().colors[i], "vertex colour changed or its channels were swapped in write->parse");
+    std::mem::forget((c, d));
+}
+
+/// witness KF-C14-mccv-flag
+#[kani::proof]
+#[kani::stub(std::fmt::format, vio::fmt_stub)]
+#[kani::stub(std::any::TypeId::eq, typeid_ne)]
+#[kani::unwind(147)]
+fn c14e_mcnk_vertex_colors_flag_witness() {
+    let mut c = empty_mcnk(header_zero());
+    c.vertex_colors = Some(MccvChunk::default());
+    let mut out = FSink::<768>::new();
+    ok!(write_mcnk_chunk(&mut out, &c), "write fails");
+    let mut src = Src::<768>::new(out.buf, out.len);
+    src.pos = 8;
+    let d = ok!(McnkChunk::parse_with_offset_and_size(&mut src, 0, le32(&out.buf, 4)), "parse fails");
+    assert!(d.vertex_colors.is_some(), "MCCV vertex colours written by the serializer are lost by the parser (MCNK flag 0x40 not set by the writer)");
+    std::mem::forget((c, d));
+}
+
 #[kani::proof]
 #[kani::stub(std::fmt::format, vio::fmt_stub)]
 #[kani::stub(std::any::TypeId::eq, typeid_ne)]
